@@ -154,7 +154,7 @@ def inverse_structured_rotation(x: jnp.ndarray, rng: PRNGKey,
   """
   rademacher = jax.random.rademacher(rng, x.shape)
   w = walsh_hadamard_transform(x) * rademacher / jnp.sqrt(x.size)
-  original_size = jnp.prod(original_shape)
+  original_size = int(jnp.prod(original_shape))
   y_flat = w.take(jnp.arange(original_size))
   return jnp.reshape(y_flat, original_shape)
 
